@@ -67,7 +67,9 @@ pub fn extract_field_content(input: &str, tag: &str) -> Option<(String, usize)> 
         + raw_content_len
         + if has_trailing_newline { 1 } else { 0 };
 
-    Some((content.to_string(), consumed))
+    // CRLF inside the content is the line separator of a multi-line field: the field parsers work on
+    // LF-separated lines (the form the library writes), so a CR is never left at the end of a line
+    Some((content.replace("\r\n", "\n"), consumed))
 }
 
 /// Find the boundary of the next field
